@@ -27,6 +27,42 @@ for d in sorted(glob.glob(os.path.join(V, "seeded", "C*"))):
     for pn, pb in patches:
         for gn, gb in gos:
             out.setdefault(pid, []).append({"id": f"seed/{name}/{pn}/{gn}", "patches": [pb], "src": gb})
+# C09: a demonstration with several patch files (or one file with several changes) is a chain, in order of appearance
+import json as _j
+chains = []
+for d in sorted(glob.glob(os.path.join(V, "seeded", "C*"))):
+    meta = json.load(open(os.path.join(d, "meta.json")))
+    demo = os.path.join(d, "demo.sh")
+    if meta["property"] not in ("C09", "C10") or not os.path.exists(demo):
+        continue
+    text = open(demo).read()
+    patches, gos = [], []
+    for m in HEREDOC.finditer(text):
+        base, body = os.path.basename(m.group(1).strip('"')), m.group(3) + "\n"
+        if base.endswith(".patch"):
+            patches.append(body)
+        elif base.endswith(".go") and not re.match(r"(want|expect|exp_|golden|ref)", base) and body.lstrip().startswith(("package", "//", "/*")):
+            gos.append((base, body))
+    changes = []
+    for ptxt in patches:
+        cur, nat = [], 0
+        for l in ptxt.split("\n"):
+            if l.startswith("@"):
+                nat += 1
+                if nat % 2 == 1 and any(x.startswith("@") for x in cur):
+                    changes.append("\n".join(cur) + "\n"); cur = []
+            cur.append(l)
+        if any(x.startswith("@") for x in cur):
+            changes.append("\n".join(cur))
+    # all changes in order, and every ordered pair: a demo often holds several scenarios
+    combos = [changes] + [[a, b] for i, a in enumerate(changes) for b in changes[i + 1:]] if len(changes) >= 2 else []
+    for gn, gb in gos:
+        for ci, ch in enumerate(combos[:12]):
+            chains.append({"id": f"seed/{os.path.basename(d)}/{gn}/{ci}", "chain": ch, "src": gb, "how": ["flags", "one-file"][ci % 2]})
+if chains:
+    json.dump(chains, open(os.path.join(V, "corpus", "C09", "seeded_chains.json"), "w"), indent=1)
+    print("C09 chains", len(chains))
+
 for pid, cases in out.items():
     os.makedirs(os.path.join(V, "corpus", pid), exist_ok=True)
     if pid in ENGINE:
